@@ -10,6 +10,7 @@ import (
 	"path/filepath"
 	"sort"
 	"strings"
+	"sync"
 
 	"golang.org/x/text/language"
 
@@ -24,10 +25,10 @@ func init() {
 // otherLangTags are tags whose language is neither English nor Japanese.  They
 // include languages whose code merely starts with "en"/"ja" (enm, jam, jv).
 var otherLangTags = []string{"und", "fr", "de", "de-CH", "zh", "zh-Hant-TW", "zh-Hans-CN", "ko", "ko-KR", "es", "es-419", "ru", "ar", "he", "hi", "pt-BR", "sr-Latn", "it", "nl", "sv", "tr", "vi", "th",
-	"enm", "jam", "jv", "eo", "mul", "zxx", "fr-JP", "zh-JP", "ko-US", "x-klingon", "tlh", "yue-Hant-HK"}
+	"enm", "jam", "jv", "eo", "mul", "zxx", "und-JP", "und-US", "und-Jpan", "und-Hira", "und-Kana-JP", "und-Latn", "fr-JP", "zh-JP", "ko-US", "x-klingon", "tlh", "yue-Hant-HK"}
 
 // regionalTags are variants of English and Japanese: exercised, not judged.
-var regionalTags = []string{"und-JP", "und-US", "en-US", "en-GB", "en-AU", "en-Latn", "en-Latn-US", "ja-JP", "ja-Jpan", "ja-Latn", "ja-US", "en-JP", "en-001", "en-u-ca-gregory", "ja-u-ca-japanese"}
+var regionalTags = []string{"en-US", "en-GB", "en-AU", "en-Latn", "en-Latn-US", "ja-JP", "ja-Jpan", "ja-Latn", "ja-US", "en-JP", "en-001", "en-u-ca-gregory", "ja-u-ca-japanese"}
 
 func tagOf(s string) language.Tag {
 	if s == "zero" {
@@ -109,9 +110,14 @@ func checkValueFn(w *W, f *lib.ValueFn, jaUnknown *string) {
 			seen[s] = labels[i]
 		}
 		// out-of-range values
-		outs := []int{math.MinInt, math.MinInt32, -3, -2, -1, math.MaxInt32, math.MaxInt}
-		for v := 0; v <= maxc+3; v++ {
+		outs := []int{math.MinInt, math.MinInt32, math.MaxInt32, math.MaxInt, 1 << 32, 1<<32 + 1, 1<<32 + 2, 1 << 31, 1<<31 + 1, -(1 << 31) - 1}
+		for v := -700; v <= 700; v++ {
 			outs = append(outs, v)
+		}
+		for _, b := range []int{1 << 8, 1 << 15, 1 << 16, -(1 << 8), -(1 << 16), 1 << 24} {
+			for d := -8; d <= 8; d++ {
+				outs = append(outs, b+d)
+			}
 		}
 		for _, v := range outs {
 			if defined[v] {
@@ -241,20 +247,97 @@ func unmonitoredNames() (missing []string, parsed int, err error) {
 	return
 }
 
-func runC18(r *Run) int {
-	r.CleanOut()
-	w := r.NewW()
+// c18AllChecks runs the whole exhaustive check set once, starting at function offset off.
+func c18AllChecks(w *W, off int) string {
 	var jaUnknown string
-	for i := range lib.ValueFns {
-		checkValueFn(w, &lib.ValueFns[i], &jaUnknown)
+	nv, nt := len(lib.ValueFns), len(lib.TitleFns)
+	for i := 0; i < nv; i++ {
+		checkValueFn(w, &lib.ValueFns[(i+off)%nv], &jaUnknown)
 	}
-	for i := range lib.TitleFns {
-		checkTitleFn(w, &lib.TitleFns[i])
+	for i := 0; i < nt; i++ {
+		checkTitleFn(w, &lib.TitleFns[(i+off)%nt])
 	}
 	checkModifiedNames(w)
-	w.Sample(map[string]interface{}{"function": "AVValueOf", "value": "AttackVectorNetwork", "en": lib.ValueFns[0].F(lib.C3[spec.AV][0], language.English), "ja": lib.ValueFns[0].F(lib.C3[spec.AV][0], language.Japanese), "fr": lib.ValueFns[0].F(lib.C3[spec.AV][0], language.French)})
-	w.Sample(map[string]interface{}{"function": "MPRValueOf", "value": 99, "en": lib.ValueFns[16].F(99, language.English), "ja": lib.ValueFns[16].F(99, language.Japanese)})
-	w.Merge()
+	return jaUnknown
+}
+
+// c18child <mode>: a fresh process that first touches the tables in a mode-specific order (so that a
+// first-use effect is provoked by something other than a plain English/Japanese lookup), then runs all checks.
+func init() {
+	internals["c18child"] = func(args []string, seed int64, dir string) int {
+		r := NewRun("C18", "quick", seed, dir)
+		r.Child = true
+		w := r.NewW()
+		var warm []string
+		switch args[0] {
+		case "regional-first":
+			warm = regionalTags
+		case "other-first":
+			warm = otherLangTags
+		case "japanese-variants-first":
+			warm = []string{"ja-US", "ja-DE", "ja-u-ca-japanese", "ja-Latn", "en-GB", "en-JP"}
+		case "reverse":
+			warm = append(append([]string{}, otherLangTags...), regionalTags...)
+			for i, j := 0, len(warm)-1; i < j; i, j = i+1, j-1 {
+				warm[i], warm[j] = warm[j], warm[i]
+			}
+		}
+		for _, lang := range warm {
+			for i := range lib.TitleFns {
+				callTitle(w, &lib.TitleFns[i], lang)
+			}
+			for i := range lib.ValueFns {
+				for v := -1; v <= 6; v++ {
+					callValue(w, &lib.ValueFns[i], v, lang)
+				}
+			}
+		}
+		c18AllChecks(w, len(args[0]))
+		w.Merge()
+		fmt.Println("evaluations", r.evals.Load())
+		return 0
+	}
+}
+
+func runC18(r *Run) int {
+	r.CleanOut()
+	// (1) in this process: the whole check set from 8 goroutines at once, each starting at another function
+	var jaUnknown string
+	var wg sync.WaitGroup
+	var mu sync.Mutex
+	for g := 0; g < 8; g++ {
+		wg.Add(1)
+		go func(g int) {
+			defer wg.Done()
+			w := r.NewW()
+			ja := c18AllChecks(w, g*7)
+			mu.Lock()
+			jaUnknown = ja
+			mu.Unlock()
+			if g == 0 {
+				w.Sample(map[string]interface{}{"function": "AVValueOf", "value": "AttackVectorNetwork", "en": lib.ValueFns[0].F(lib.C3[spec.AV][0], language.English), "ja": lib.ValueFns[0].F(lib.C3[spec.AV][0], language.Japanese), "fr": lib.ValueFns[0].F(lib.C3[spec.AV][0], language.French)})
+				w.Sample(map[string]interface{}{"function": "MPRValueOf", "value": 99, "en": lib.ValueFns[16].F(99, language.English), "ja": lib.ValueFns[16].F(99, language.Japanese)})
+			}
+			w.Merge()
+		}(g)
+	}
+	wg.Wait()
+	// (2) fresh child processes whose first lookups are something else than plain English / Japanese
+	modes := []string{"regional-first", "other-first", "japanese-variants-first", "reverse"}
+	for _, m := range modes {
+		rest, err := r.RunChildChecks("first lookups: "+m, "c18child", m)
+		if err != nil {
+			r.Inconclusive("child process %s failed: %v %v", m, err, rest)
+			continue
+		}
+		for _, l := range rest {
+			var n int64
+			if _, e := fmt.Sscanf(l, "evaluations %d", &n); e == nil {
+				r.AddEvals(n)
+			}
+		}
+	}
+	r.Extra("child_processes_with_other_first_lookups", modes)
 	missing, parsed, err := unmonitoredNames()
 	r.Extra("registry", map[string]interface{}{"title_functions": len(lib.TitleFns), "value_functions": len(lib.ValueFns), "exported_functions_found_by_go/parser": parsed, "unmonitored_exported_functions": missing, "parse_error": fmt.Sprint(err)})
 	if len(missing) > 0 {
@@ -263,7 +346,7 @@ func runC18(r *Run) int {
 	r.Extra("japanese_unknown_name", jaUnknown)
 	r.Extra("other_language_tags", otherLangTags)
 	r.Extra("regional_variant_tags_exercised_not_judged", regionalTags)
-	return r.Finish("exhaustive: the 52 names functions (26 titles, 3 column headers, 23 value-name functions) x every enumeration integer 0..max+3, -3..-1, MinInt/MaxInt x {English, Japanese} + fallback of every function/value over 39 tags whose language is neither English nor Japanese (incl. und, the zero Tag, enm, jam, jv) ; Modified value names vs base value names for every code; distinct non-trivial = distinct (function, defined value or title, language) triples",
+	return r.Finish("exhaustive: the 52 names functions (26 titles, 3 column headers, 23 value-name functions) x every enumeration integer -700..700, around +-2^8/2^15/2^16/2^24/2^31/2^32, MinInt/MaxInt x {English, Japanese} + fallback of every function/value over 45 tags whose language is neither English nor Japanese (incl. und, und-JP, und-Jpan, the zero Tag, enm, jam, jv); Modified value names vs base value names for every code; the whole set is run by 8 goroutines at once in this process and once in each of 4 fresh child processes whose first lookups are regional variants / other languages / Japanese variants / reversed order; distinct non-trivial = distinct (function, defined value or title, language) triples",
 		true, int64(r.SetSize("value_names")+r.SetSize("titles")), 5000, 200, TrustedBase)
 }
 
